@@ -308,3 +308,14 @@ Example C20_dom_refuted_on_source :
   = Ok (mkI (ord 2026 4 20) 3600 0) (36 * DAYUS) /\
   DelayGen.due (300 * US) = true /\ DelayGen.due (300 * US + 1) = false.
 Proof. vm_compute. repeat split. Qed.
+
+(* ---- the set of known targets may change between steps: dawgie.db.targets()
+   is asked again by every defer().  C20_due_queues above is quantified over the
+   target list of the moment; scenarios pair every step with the list known when
+   it happens (Model/DelayT.v), and with one list throughout they are the
+   scenarios of Model/Delay.v ---- *)
+From DV Require Model.DelayT Proofs.DelayTProofs.
+Theorem C20_targets_of_the_moment : forall tg ids ss st,
+  DV.Model.DelayT.run_steps_t ids st (map (fun s => (tg, s)) ss) = run_steps tg ids st ss.
+Proof. exact DV.Proofs.DelayTProofs.run_steps_t_const. Qed.
+Print Assumptions C20_targets_of_the_moment.
